@@ -503,10 +503,14 @@ func main() {
 		for _, li := range few {
 			for _, pad := range pads {
 				for _, other := range [][]call{{{"Add", 0}, {"Len", 0}}, {{"Remove", 0}, {"Len", 0}}, {{"Add", 0}}, {{"Len", 0}, {"Add", 0}}, {{"Has", 2}, {"Add", 1}}} {
-					scs = append(scs, scenario(li, [][]call{{{"AddSet", big(1, pad)}}, other}, ev.Pick(r, 2, 3), -2))
-					scs = append(scs, scenario(li, [][]call{{{"RemoveSet", big(3, pad)}}, other}, ev.Pick(r, 2, 3), -2))
+					b := 2
+					if pad > 64 {
+						b = 1 // several hundred steps per call: one preemption
+					}
+					scs = append(scs, scenario(li, [][]call{{{"AddSet", big(1, pad)}}, other}, b, -2))
+					scs = append(scs, scenario(li, [][]call{{{"RemoveSet", big(3, pad)}}, other}, b, -2))
 				}
-				scs = append(scs, scenario(li, [][]call{{{"AddSet", big(3, pad)}}, {{"Add", 1}, {"Len", 0}}, {{"Remove", 0}}}, ev.Pick(r, 1, 2), -2))
+				scs = append(scs, scenario(li, [][]call{{{"AddSet", big(3, pad)}}, {{"Add", 1}, {"Len", 0}}, {{"Remove", 0}}}, 1, -2))
 			}
 		}
 	}
